@@ -120,6 +120,8 @@ Blame ==
   @@ "tf.k"       :> {"C10"}
   @@ "adv.vt"     :> {"C10", "C11"}
   @@ "adv.pending" :> {"C10", "C11"}
+  @@ "blk.loop.closed.subscribed" :> {"C05", "C09"} @@ "q.loops.closed.subscribed" :> {"C05", "C09"} @@ "un.loop.closed.subscribed" :> {"C05", "C09"}
+  @@ "blk.loop.closed.timers" :> {"C05", "C10"} @@ "q.loops.closed.timers" :> {"C05", "C10"} @@ "un.loop.closed.timers" :> {"C05", "C10"}
   @@ "blk.loop.closed" :> {"C05"} @@ "blk.loop.closed.stream" :> {"C05", "C13"} @@ "blk.loop.stream" :> {"C13"}
   @@ "blk.loop.deq.mailbox" :> {"C02", "C05"} @@ "blk.loop.deq.ctx" :> {"C04"} @@ "blk.loop.deq.timer" :> {"C10"}
   @@ "blk.loop.deq.parent" :> {"C16"} @@ "blk.loop.deq.broker" :> {"C09"}
